@@ -31,9 +31,18 @@ def run_case(case):
     reached = {'systemexit': threading.Event(), 'terminated': threading.Event(), 'handler': threading.Event()}
     release_student = threading.Event()
     log = []
+    waited = [0.0]
 
     def sync(point):
         log.append((point, threading.current_thread().name))
+        t_in = time.time()
+        try:
+            _sync(point)
+        finally:
+            if threading.current_thread() is threading.main_thread():
+                waited[0] += time.time() - t_in
+
+    def _sync(point):
         if point == 'execute.systemexit':
             reached['systemexit'].set()
             if sched in ('B', 'C'):
@@ -55,7 +64,8 @@ def run_case(case):
         S.run(threaded=True)
     except BaseException as e:
         escaped = type(e).__name__
-    out['wall'] = round(time.time() - t0, 3)
+    out['wall'] = round(time.time() - t0 - waited[0], 3)      # time the checker itself held the grader thread is not pedal's
+    out['checker_wait'] = round(waited[0], 3)
     out['escaped'] = escaped
     exc = sb.exception
     out['exception_at_return'] = None if exc is None else type(getattr(exc, '_actual_value', exc)).__name__
